@@ -171,15 +171,19 @@ class H5Group:
             for item in self:
                 if item.get_attr("entity_id") == id_or_name:
                     return True
-            return False
-        else:
-            return id_or_name in self.group
+            # not an id in this group: it may still be a name that happens
+            # to look like a UUID
+        return id_or_name in self.group
 
     def get_by_id_or_name(self, id_or_name):
         if util.is_uuid(id_or_name):
-            return self.get_by_id(id_or_name)
-        else:
-            return self.get_by_name(id_or_name)
+            try:
+                return self.get_by_id(id_or_name)
+            except KeyError:
+                # not an id in this group: it may still be a name that
+                # happens to look like a UUID
+                pass
+        return self.get_by_name(id_or_name)
 
     def get_by_name(self, name):
         if self.group and name in self.group:
